@@ -280,7 +280,25 @@ func padding(t *tape.Tape, n int) string {
 	return sb.String()
 }
 
+// layoutSeeds exercise every place where the grammar allows a line break: statement
+// ends, after opening brackets and commas, before closing brackets, inside parameter
+// lists and multi-line chains (a line break followed by `|` and a chain).
+var layoutSeeds = []string{
+	"[1, 2, 3]\n  |@{|x| x * 2}\n  |$(0)+\n  |.S\n",
+	"100\n  |@{\\ if .prime?}\n  |.len\n  |.even?\n",
+	"o := {\n  a: 1,\n  b: [\n    2,\n    3,\n  ],\n}\no.b\n",
+	"f := {|x,\n  y| x + y}\nf(1,\n  2)\n",
+	"m := %{\n  1: \"a\",\n  \"k\": [\n    1,\n  ],\n}\n(1:\n  3)\n",
+	"g := {|x|\n  defer x.p\n  return x if x > 1\n  x * 2\n}\ng(\n  3\n)\n",
+	"x := 1 # trailing comment\n# full comment line\ny := 2 # another\n[x, # c\n  y]\n",
+	"<{|i|\n  yield i if i < 3\n  recur(i + 1)\n}>.new(0)\n  |@{|v| v}\n  |~.len\n",
+}
+
 func (c *c16Check) seedProgram(t *tape.Tape) (string, string) {
+	if t.Chance(1, 4) {
+		i := t.Intn(len(layoutSeeds))
+		return layoutSeeds[i], fmt.Sprintf("layoutseed%d", i)
+	}
 	if len(c.corpus) > 0 && t.Chance(1, 2) {
 		i := t.Intn(len(c.corpus))
 		return c.corpus[i], c.names[i]
@@ -389,7 +407,8 @@ func (c *c16Check) Run(seed, run uint64, rec []uint32, st Stats, only *Viol) []V
 		s.BySize["pad"+sizeClass(len(pad))]++
 	case "token":
 		n := padSizes[2+t.Intn(len(padSizes)-2)]
-		long := strings.Repeat("q", n)
+		unit := "q"
+		unitKind := t.Pick(4, 1, 1, 1, 1)
 		// optional filler so that the token straddles a multiple of 1024
 		fill := ""
 		if t.Chance(1, 2) {
@@ -398,7 +417,14 @@ func (c *c16Check) Run(seed, run uint64, rec []uint32, st Stats, only *Viol) []V
 			s.Straddle++
 		}
 		var tmpl, tokKind string
-		switch t.Pick(2, 2, 2, 2, 1, 1) {
+		tk := t.Pick(2, 2, 2, 2, 1, 1)
+		if tk != 2 && tk != 5 {
+			// strings, raw strings, comments and embedded pieces may hold any text:
+			// multi-byte characters (cut points inside a rune), blanks, a lone `#`
+			unit = []string{"q", "é", "日本", "q q", "q#"}[unitKind]
+		}
+		long := strings.Repeat(unit, (n+len(unit)-1)/len(unit))
+		switch tk {
 		case 0:
 			tmpl, tokKind = "v := \"@\"\nv\n", "dqstr"
 		case 1:
@@ -412,15 +438,18 @@ func (c *c16Check) Run(seed, run uint64, rec []uint32, st Stats, only *Viol) []V
 		default:
 			tmpl, tokKind = "v := '@\n", "symbol"
 		}
-		short := fill + strings.Replace(tmpl, "@", "qqq", -1)
+		// the short version holds the same kind of text (same unit), so that only the
+		// LENGTH differs between the baseline and the variant
+		shortTok := strings.Repeat(unit, 3)
+		short := fill + strings.Replace(tmpl, "@", shortTok, -1)
 		w, err := parse1(short)
-		if err != nil {
+		if err != nil || (tokKind != "comment" && !strings.Contains(w, shortTok)) {
 			s.Discarded++
 			return nil
 		}
-		want = strings.Replace(w, "qqq", long, -1)
+		want = strings.Replace(w, shortTok, long, -1)
 		variant = fill + strings.Replace(tmpl, "@", long, -1)
-		label = fmt.Sprintf("%s len=%d fill=%d", tokKind, n, len(fill))
+		label = fmt.Sprintf("%s len=%d fill=%d unit=%q", tokKind, len(long), len(fill), unit)
 		s.BySize["tok"+sizeClass(n)]++
 	}
 	s.Variants++
